@@ -1,5 +1,5 @@
 /*UNIT
-{"props": ["C03"], "mode": "plain", "kind": "proved",
+{"props": ["C03", "C05"], "mode": "plain", "kind": "proved",
  "functions": ["qb_ipcs_shm_disconnect", "qb_ipcs_us_disconnect", "_sock_rm_from_mainloop (inlined)", "qb_ipcc_us_sock_close (stub: counted per descriptor)"],
  "stubs": ["qb_rb_close (ghost ledger per ring)", "qb_ipcc_us_sock_close (ghost ledger per descriptor)", "poll_fns.dispatch_del (ledger per descriptor)", "munmap / unlink (ledger)", "remove_tempdir (counted)",
            "sigaction/sigemptyset (no-ops), setjmp returns 0 (assumption: no SIGBUS while tearing down)", "stat fails (abstract-namespace sockets: no force-filesystem-sockets file)", "free (observed)"],
@@ -103,7 +103,7 @@ void harness(void)
 
 	COVER(nd_state == QB_IPCS_CONNECTION_ACTIVE);
 	COVER(nd_state == QB_IPCS_CONNECTION_INACTIVE);
-	POST(td_rmtmp == 1, "teardown always attempts to remove the per-connection directory");
+	POST(td_rmtmp == 1, "teardown always attempts to remove the per-connection directory (also for a connection that never left INACTIVE: a refused client leaves no directory behind)");
 #if V_SHM
 	POST(td_rb_closed[0] == (owns_mem && nd_have_req) && td_rb_closed[1] == (owns_mem && nd_have_rsp) && td_rb_closed[2] == (owns_mem && nd_have_evt),
 	     "the rings that exist are closed exactly in the states that own them (SHUTTING_DOWN, ACTIVE), each once");
